@@ -135,6 +135,7 @@ impl Sink<Frame> for RecSink {
 
 // @unwind 1
 // @bound every connection state (14) x local/remote channel-max (all 16-bit pairs)
+// @also C17
 // @desc a peer's open moves the connection exactly as the spec diagram says (illegal in any other state, state unchanged), and the agreed channel-max is min(local, remote)
 pharness!(c12_on_incoming_open, |s| {
     let st = s.u8();
